@@ -196,6 +196,36 @@ class ManifestMachine(FormatMachine):
     def add_key(self, op, payload):
         return [len(payload)]
 
+    def op_mf_del_variant(self, op):
+        """del manifest[variant] - the public way of taking a variant out again"""
+        s = self.slot(op)
+        if s is None or s.obj is None or s.tainted or op["variant"] not in s.model["payload"]:
+            return "noop"
+        del s.obj[op["variant"]]
+        del s.model["payload"][op["variant"]]
+        return "ok"
+
+    def op_reload_same(self, op):
+        """load(path) into the SAME, already used object (rpms / modules / extra files replace their mapping on load)"""
+        s = self.slot(op)
+        path = self.path(op)
+        d = self.durable.get(path)
+        if s is None or s.obj is None or s.tainted or d is None or not d["clean"] or d["expected"] is None or d.get("legacy"):
+            return "noop"
+        try:
+            s.obj.load(path)
+        except Exception as e:
+            if isinstance(e, HarnessError):
+                raise
+            raise Violation("C03", "C03.own_output_loads", "own-output-rejected-on-reload/%s/%s" % (self.FORMAT, exc_class(e)), {"msg": str(e)[:160]})
+        got = self.observe(s.obj)
+        diff = first_diff(d["expected"], got)
+        self.count("C03", ["reload-same", self.FORMAT, self.abstract_expected(d["expected"])])
+        if diff:
+            raise Violation("C03", "C03.restart_equals_written", "reload-into-same-object-differs/%s/%s" % (self.FORMAT, diff_key(diff)), {"diff": diff})
+        s.model = self.model_from_expected(s, d["expected"])
+        return "ok"
+
     def op_model_add(self, op):
         """The entry is added to the reference model ONLY (the documented effect of the call), not through productmd:
         used to put a document on disk whose content does not depend on the add code under test."""
